@@ -394,9 +394,30 @@ class _S:
         return self.fn(case)
 
 
-SUBCHECKS = {"pc": _S(explore_pc, 8, "pc"), "se23": _S(explore_se23, 4, "se23"), "flat": _S(explore_flat, 8, "flat"), "helpers": _S(explore_helpers, 1, "helpers")}
+# module constants a user may set before deriving: another vehicle (also with integer-valued inertia and a fractional cross term)
+OVERRIDES = [dict(bezier=dict(m=0.8, g=3.7, J_xx=2, J_yy=3, J_zz=4, J_xz=0.5), rdd2=dict(m=0.8, g=3.7, kp_pos=2.5), ll=dict(m=0.8, g=3.7)),
+             dict(bezier=dict(m=12, g=9.8, J_xx=0.5, J_yy=0.25, J_zz=1, J_xz=-0.125), rdd2=dict(m=12, kp_vel=3), ll=dict(m=12, kp_vel=3))]
+_OV = {"pc": core.overridden(mods, _M, explore_pc), "se23": core.overridden(mods, _M, explore_se23), "flat": core.overridden(mods, _M, explore_flat)}
+
+
+class _Ov:
+    chunks = 1
+
+    def cases(self, tier, seed):
+        return [dict(sub="overrides", which=w, tier=tier, seed=seed, part=p, nparts=12, override=o) for o in OVERRIDES for w in ("pc", "se23", "flat") for p in (0, 5)]
+
+    def run(self, case):
+        r = _OV[case["which"]](case)
+        for f in r.fails:
+            f["sub"] = "overrides"
+            f["case"] = case
+        return r
+
+
+SUBCHECKS = {"pc": _S(explore_pc, 8, "pc"), "se23": _S(explore_se23, 4, "se23"), "flat": _S(explore_flat, 8, "flat"), "helpers": _S(explore_helpers, 1, "helpers"),
+             "overrides": _Ov()}
 REPLAY = {"pc": lambda c: explore_pc(c).fails, "se23": lambda c: explore_se23(c).fails, "flat": lambda c: explore_flat(c).fails,
-          "helpers": lambda c: explore_helpers(c).fails}
+          "helpers": lambda c: explore_helpers(c).fails, "overrides": lambda c: _Ov().run(c).fails}
 
 # results must not depend on which library calls were made earlier in the process (see mc/order.py)
 from .. import order as _order  # noqa: E402
@@ -404,3 +425,10 @@ from .. import order as _order  # noqa: E402
 _ORDER = _order.OrderSub("C14", "setpoints", None)
 SUBCHECKS["order"] = _ORDER
 REPLAY["order"] = _ORDER.replay
+
+# keyword / dict calls bind the documented names (see mc/kw.py)
+from .. import kw as _kw  # noqa: E402
+
+_KW = _kw.KwSub("setpoints")
+SUBCHECKS["keywords"] = _KW
+REPLAY["keywords"] = _KW.replay
